@@ -131,7 +131,8 @@ DeleteEntries(r, ps) ==
 
 \* squash: keep the n most recent VISIBLE bundles, plus labelled ones on request
 Labelled(r, mode) ==
-  {labels[k] : k \in {q \in LabelsOf(r) : mode = "tags" \/ (mode = "semver" /\ q.name.semver)}}
+  \* ("both" = retain-tags together with retain-semver-tags: every label retains, as with retain-tags alone)
+  {labels[k] : k \in {q \in LabelsOf(r) : mode \in {"tags", "both"} \/ (mode = "semver" /\ q.name.semver)}}
 KeepSet(r, n, mode) ==
   LET v == VisibleIn(r)
       recent == {b \in v : Cardinality({c \in v : c > b}) < n}
@@ -154,6 +155,6 @@ VisibleComplete == \A b \in Ids : Visible(b) => bun[b].idx = NIdx(b)
 LabelsResolve == \A k \in DOMAIN labels : k.repo \in repos /\ labels[k] \in VisibleIn(k.repo)
 \* squash never removes the most recent visible bundle
 SquashKeepsLatest ==
-  \A r \in repos, n \in 1..3, mode \in {"none", "tags", "semver"} :
+  \A r \in repos, n \in 1..3, mode \in {"none", "tags", "semver", "both"} :
      LatestOp(r) # None => LatestOp(r) \in KeepSet(r, n, mode)
 =============================================================================
